@@ -42,6 +42,7 @@ type pathRec struct {
 	trunc  bool
 	recvOp string
 	lens   map[string]int
+	facts  []string // what the path learned about the tree: "type <field>=<T>", "op <field>=<op>", "same <a>,<b>=<bool>", "cond <key>=<bool>"
 }
 
 type eng struct {
@@ -465,21 +466,27 @@ func (e *eng) absFlags(v absint.Val) (flags, [3]string, string) {
 }
 
 type runState struct {
-	e      *eng
-	in     *absint.Interp
-	pa     *pathRec
-	cs     *seg
-	ds     *seg
-	nref   int
-	recv   absint.Val
-	recvT  string
-	reqs   map[key]bool
+	e        *eng
+	in       *absint.Interp
+	pa       *pathRec
+	cs       *seg
+	ds       *seg
+	nref     int
+	recv     absint.Val
+	recvT    string
+	matField string
+	matRef   *nodeRef
+	reqs     map[key]bool
 }
 
 func (r *runState) newRef(field string) *nodeRef {
 	r.nref++
 	cl := r.e.classes[field]
-	return &nodeRef{id: r.nref, field: field, class: cl, mat: map[string]absint.Val{}}
+	n := &nodeRef{id: r.nref, field: field, class: cl, mat: map[string]absint.Val{}, parent: r.matRef}
+	if r.matRef != nil {
+		n.depth = r.matRef.depth + 1
+	}
+	return n
 }
 
 // materialise builds a receiver of node type tn with opaque children.
@@ -555,6 +562,9 @@ func (r *runState) materialise(tn string) absint.Val {
 		}
 		return &absint.Struct{T: t, F: f}
 	case *types.Basic:
+		if r.matField != "" {
+			return absint.NewVar(r.matField+":"+tn+".value", t)
+		}
 		return absint.NewVar(tn+".value", t)
 	}
 	return absint.Top{Why: "cannot materialise " + tn}
@@ -640,6 +650,9 @@ func (e *eng) onePath(k key, o *absint.Oracle, reqs map[key]bool) *pathRec {
 		}
 	}
 	pa.trace = o.Trace()
+	for _, c := range in.CondV {
+		pa.facts = append(pa.facts, fmt.Sprintf("cond %s=%v", absint.Key(c.V), c.B))
+	}
 	for _, c := range r.cs.items {
 		pa.items = append(pa.items, r.itemOf(c))
 	}
@@ -855,6 +868,11 @@ func (e *eng) hooks(r *runState) {
 				}
 			}
 			eq := in.Oracle.Choose(2, "subtrees equal") == 1
+			fa, fb := refField(x), refField(y)
+			if fa > fb {
+				fa, fb = fb, fa
+			}
+			r.pa.facts = append(r.pa.facts, fmt.Sprintf("same %s,%s=%v", fa, fb, eq))
 			return absint.MkBool(eq == (op == token.EQL)), true
 		}
 		return nil, false
@@ -984,7 +1002,22 @@ func (e *eng) hooks(r *runState) {
 			return res(absint.Zero(asserted), false)
 		}
 		if ref.mat[tn] == nil {
+			if ref.depth >= 3 {
+				in.Undecided(fmt.Sprintf("the compiler descends more than 3 levels into the tree below its node (%s): unbounded inspection of descendants is not summarised", ref.ObjString()), site)
+			}
+			r.matField, r.matRef = ref.field, ref
 			ref.mat[tn] = r.materialise(tn)
+			r.matField, r.matRef = "", nil
+			if st, ok := ref.mat[tn].(*absint.Struct); ok {
+				if stt, ok := st.T.Underlying().(*types.Struct); ok {
+					for i := 0; i < stt.NumFields(); i++ {
+						if op, ok := absint.ConstString(st.F[i]); ok && stt.Field(i).Name() == "Op" {
+							r.pa.facts = append(r.pa.facts, "op "+ref.field+"="+op)
+							ref.op = op
+						}
+					}
+				}
+			}
 		}
 		return res(ref.mat[tn], true)
 	}
@@ -1094,12 +1127,25 @@ func (e *eng) hooks(r *runState) {
 	}
 }
 
+func refField(v absint.Val) string {
+	switch n := v.(type) {
+	case *nodeRef:
+		return n.field
+	case *absint.Iface:
+		if nt, ok := n.T.(*types.Named); ok {
+			return "<" + nt.Obj().Name() + " value>"
+		}
+	}
+	return "<" + absint.Key(v) + ">"
+}
+
 func (r *runState) choose(ref *nodeRef) string {
 	if ref.chosen == "" {
 		if len(ref.class) == 0 {
 			r.in.Undecided("no class for field "+ref.field, nil)
 		}
 		ref.chosen = ref.class[r.in.Oracle.Choose(len(ref.class), "type of "+ref.field)]
+		r.pa.facts = append(r.pa.facts, "type "+ref.field+"="+ref.chosen)
 	}
 	return ref.chosen
 }
